@@ -85,6 +85,7 @@ w("43", "C06", "regex literal with an oversized repetition count raises Overflow
 w("43", "C06", "match() with an oversized repetition count raises OverflowError", {"kind": "query", "text": "$[?match(@.a, 'a{99999999999}')]", "docs": [[{"a": "x"}]]})
 w("43", "C06", "search() with incompatible inline flags raises ValueError", {"kind": "query", "text": "$[?search(@.a, '(?a)(?u)a')]", "docs": [[{"a": "x"}]]})
 w("44", "C06", "'#' pointer token of more than 4300 digits raises ValueError", {"kind": "pointer", "text": "/#" + "1" * 4301, "docs": [[1]]})
+w("45", "C06", "a pointer with an unknown backslash sequence makes the library emit DeprecationWarning (an exception where such warnings are errors)", {"kind": "pointer", "text": "/a\\g<0>/\\400", "docs": [{"a": 1}], "warnings_as_errors": True})
 w("38", "C06", "patch target with a key marker raises KeyError", {"kind": "patch", "ops": [{"op": "remove", "path": "/#a"}], "docs": [{"a": 1}]})
 w("38", "C06", "patch target with an index marker raises ValueError", {"kind": "patch", "ops": [{"op": "add", "path": "/b/#0", "value": 1}], "docs": [{"b": [1, 2]}]})
 
